@@ -279,7 +279,65 @@ Pwhash ==
   Mk("crypto_pwhash_scryptsalsa208sha256_ll", Lt, {0, 1, 32, 65}, Z, "ok", LAMBDA a, b : <<In(a), In(b), Out(64)>>)
 
 -----------------------------------------------------------------------------
-Parts == {"hash", "stream", "box", "aead1", "aead2", "aead3", "curve", "group", "utils", "pwhash"}
+
+-----------------------------------------------------------------------------
+(* key generators, primitive-named entry points, NaCl-style (zero-padded) box / secretbox, detached_afternm *)
+KeyGens == {<<"crypto_aead_aegis128l_keygen", 16>>, <<"crypto_aead_aegis256_keygen", 32>>, <<"crypto_aead_aes256gcm_keygen", 32>>,
+            <<"crypto_aead_chacha20poly1305_ietf_keygen", 32>>, <<"crypto_aead_chacha20poly1305_keygen", 32>>, <<"crypto_aead_xchacha20poly1305_ietf_keygen", 32>>,
+            <<"crypto_auth_hmacsha256_keygen", 32>>, <<"crypto_auth_hmacsha512256_keygen", 32>>, <<"crypto_auth_hmacsha512_keygen", 32>>, <<"crypto_auth_keygen", 32>>,
+            <<"crypto_generichash_blake2b_keygen", 32>>, <<"crypto_generichash_keygen", 32>>, <<"crypto_kdf_hkdf_sha256_keygen", 32>>, <<"crypto_kdf_hkdf_sha512_keygen", 64>>,
+            <<"crypto_kdf_keygen", 32>>, <<"crypto_onetimeauth_keygen", 32>>, <<"crypto_onetimeauth_poly1305_keygen", 32>>, <<"crypto_secretbox_keygen", 32>>,
+            <<"crypto_secretbox_xsalsa20poly1305_keygen", 32>>, <<"crypto_secretstream_xchacha20poly1305_keygen", 32>>, <<"crypto_shorthash_keygen", 16>>,
+            <<"crypto_stream_chacha20_ietf_keygen", 32>>, <<"crypto_stream_chacha20_keygen", 32>>, <<"crypto_stream_keygen", 32>>, <<"crypto_stream_salsa2012_keygen", 32>>,
+            <<"crypto_stream_salsa208_keygen", 32>>, <<"crypto_stream_salsa20_keygen", 32>>, <<"crypto_stream_xchacha20_keygen", 32>>, <<"crypto_stream_xsalsa20_keygen", 32>>}
+NaClBoxOf(n) ==
+  Mk(n, Ls, Z, {0, 1}, "any", LAMBDA a, b : <<Out(a), Inz(a), In(24), In(32), In(32)>>) \cup
+  Mk(n \o "_open", Ls, Z, {0, 1}, "any", LAMBDA a, b : <<Outz(a), In(a), In(24), In(32), In(32)>>) \cup
+  Mk(n \o "_afternm", Ls, Z, Z, "any", LAMBDA a, b : <<Out(a), Inz(a), In(24), In(32)>>) \cup
+  Mk(n \o "_open_afternm", Ls, Z, {0, 1}, "any", LAMBDA a, b : <<Outz(a), In(a), In(24), In(32)>>)
+BoxKeysOf(p) ==
+  Mk(p \o "_keypair", Z, Z, Z, "ok", LAMBDA a, b : <<Out(32), Out(32)>>) \cup
+  Mk(p \o "_seed_keypair", Z, Z, Z, "ok", LAMBDA a, b : <<Out(32), Out(32), In(32)>>) \cup
+  Mk(p \o "_beforenm", Z, Z, {0, 1}, "try", LAMBDA a, b : <<Out(32), In(32), In(32)>>)
+DetNmOf(p) ==
+  Mk(p \o "_detached_afternm", Ls, Z, Z, "ok", LAMBDA a, b : <<Out(a), Out(16), Inz(a), In(24), In(32)>>) \cup
+  Mk(p \o "_open_detached_afternm", Ls, Z, {0, 1}, "open", LAMBDA a, b : <<Outz(a), In(a), In(16), In(24), In(32)>>)
+Extra ==
+  UNION {Mk(k[1], Rep, Z, Z, "ok", LAMBDA a, b : <<Out(k[2])>>) : k \in KeyGens} \cup
+  Mk("randombytes", Ls, Z, Z, "ok", LAMBDA a, b : <<Out(a)>>) \cup
+  Mk("crypto_sign_ed25519_keypair", Z, Z, Z, "ok", LAMBDA a, b : <<Out(32), Out(64)>>) \cup
+  Mk("crypto_sign_ed25519_seed_keypair", Z, Z, Z, "ok", LAMBDA a, b : <<Out(32), Out(64), In(32)>>) \cup
+  Mk("crypto_sign_ed25519", Ls, Z, Z, "ok", LAMBDA a, b : <<Out(a + 64), LenP, Inz(a), In(64)>>) \cup
+  Mk("crypto_sign_ed25519_open", Ls, Z, {0, 1}, "open", LAMBDA a, b : <<Outz(a), LenP, In(a + 64), In(32)>>) \cup
+  Mk("crypto_sign_ed25519_detached", Ls, Z, Z, "ok", LAMBDA a, b : <<Out(64), LenP, Inz(a), In(64)>>) \cup
+  Mk("crypto_sign_ed25519_verify_detached", Ls, Z, {0, 1}, "open", LAMBDA a, b : <<In(64), Inz(a), In(32)>>) \cup
+  Mk("crypto_sign_ed25519ph_multi_create", Ls, Z, Z, "ok", LAMBDA a, b : <<St(StateBytes.sign), Out(64), LenP, Inz(a), In(64)>>) \cup
+  Mk("crypto_sign_ed25519ph_multi_verify", Ls, Z, {0, 1}, "open", LAMBDA a, b : <<St(StateBytes.sign), In(64), Inz(a), In(32)>>) \cup
+  Mk("crypto_generichash_blake2b", Ls, {16, 33, 64}, Z, "ok", LAMBDA a, b : <<Out(b), Inz(a)>>) \cup
+  Mk("crypto_generichash_blake2b_multi", Ls, {16, 64}, Z, "ok", LAMBDA a, b : <<St(StateBytes.generichash), Out(32), Inz(a), In(b)>>) \cup
+  Mk("crypto_generichash_blake2b_multi_sp", Ls, Z, Z, "ok", LAMBDA a, b : <<St(StateBytes.generichash), Out(64), Inz(a), In(16), In(16)>>) \cup
+  Mk("crypto_onetimeauth_poly1305", Ls, Z, Z, "ok", LAMBDA a, b : <<Out(16), Inz(a), In(32)>>) \cup
+  Mk("crypto_onetimeauth_poly1305_verify", Ls, Z, {0, 1}, "open", LAMBDA a, b : <<In(16), Inz(a), In(32)>>) \cup
+  Mk("crypto_onetimeauth_poly1305_multi", Ls, Z, Z, "ok", LAMBDA a, b : <<St(StateBytes.onetimeauth), Out(16), Inz(a), In(32)>>) \cup
+  Mk("crypto_scalarmult_curve25519", Rep, Z, {0, 1}, "try", LAMBDA a, b : <<Out(32), In(32), In(32)>>) \cup
+  Mk("crypto_scalarmult_curve25519_base", Rep, Z, Z, "ok", LAMBDA a, b : <<Out(32), In(32)>>) \cup
+  Mk("crypto_shorthash_siphash24", Ls, Z, Z, "ok", LAMBDA a, b : <<Out(8), Inz(a), In(16)>>) \cup
+  Mk("crypto_kdf_blake2b_derive_from_key", {0, 9}, {16, 64}, Z, "ok", LAMBDA a, b : <<Out(b), In(8), In(32)>>) \cup
+  Mk("crypto_pwhash_argon2id_str", {0, 7}, Z, Z, "ok", LAMBDA a, b : <<Out(128), In(a)>>) \cup
+  Mk("crypto_pwhash_argon2i_str", {0, 7}, Z, Z, "ok", LAMBDA a, b : <<Out(128), In(a)>>) \cup
+  UNION {Mk(n \o "_str_verify", {7}, {127}, {1}, "ok", LAMBDA a, b : <<Str(128), In(a)>>) \cup
+         Mk(n \o "_str_verify", {7}, StrLens, {0, 2, 3}, "any", LAMBDA a, b : <<Str(b + 1), In(a)>>) \cup
+         Mk(n \o "_str_needs_rehash", Z, StrLens, {0, 2, 3}, "any", LAMBDA a, b : <<Str(b + 1)>>) : n \in {"crypto_pwhash_argon2id", "crypto_pwhash_argon2i"}} \cup
+  Mk("crypto_secretbox_xsalsa20poly1305", Ls, Z, Z, "any", LAMBDA a, b : <<Out(a), Inz(a), In(24), In(32)>>) \cup
+  Mk("crypto_secretbox_xsalsa20poly1305_open", Ls, Z, {0, 1}, "any", LAMBDA a, b : <<Outz(a), In(a), In(24), In(32)>>) \cup
+  NaClBoxOf("crypto_box_nacl") \cup NaClBoxOf("crypto_box_curve25519xsalsa20poly1305_nacl") \cup
+  BoxKeysOf("crypto_box_curve25519xsalsa20poly1305") \cup BoxKeysOf("crypto_box_curve25519xchacha20poly1305") \cup
+  DetNmOf("crypto_box") \cup DetNmOf("crypto_box_curve25519xchacha20poly1305") \cup
+  MkOpt("crypto_aead_aes256gcm_encrypt_detached_afternm", Ls, {0, 17}, Z, "ok", LAMBDA a, b : <<Out(a), Out(16), LenP, Inz(a), Inz(b), In(12), St(StateBytes.aes256gcm)>>) \cup
+  MkOpt("crypto_aead_aes256gcm_decrypt_detached_afternm", Ls, {0, 17}, {0, 1}, "open", LAMBDA a, b : <<Outz(a), In(a), In(16), Inz(b), In(12), St(StateBytes.aes256gcm)>>) \cup
+  Mk("sodium_munlock", {1, 64, 4096}, Z, Z, "any", LAMBDA a, b : <<Io(a)>>)
+
+Parts == {"extra", "hash", "stream", "box", "aead1", "aead2", "aead3", "curve", "group", "utils", "pwhash"}
 AeadsIn(S) == UNION {AeadOf(x) : x \in {y \in Aeads : y[1] \in S}}
 Family(p) == CASE p = "hash" -> Hash
                [] p = "stream" -> UNION {StreamOf(s) : s \in Streams} \cup SStream
@@ -291,6 +349,7 @@ Family(p) == CASE p = "hash" -> Hash
                [] p = "group" -> UNION {GroupOf(g) : g \in Groups} \cup GroupMaps
                [] p = "utils" -> Utils
                [] p = "pwhash" -> Pwhash
+               [] p = "extra" -> Extra
 Table == UNION {Family(p) : p \in Parts}
 FnNames == {e.fn : e \in Table}
 
